@@ -101,26 +101,57 @@ func main() {
 }
 
 // runWatched runs one case under a watchdog: code under test that never returns is reported as
-// "hang" (the goroutine is abandoned; after a few of them the remaining cases are not started).
-var hangs int
+// "hang" (the worker goroutine is abandoned and replaced; after a few of them the remaining cases
+// are not started).  One long-lived worker and one timer serve all cases.
+var (
+	hangs     int
+	wdReq     chan string
+	wdRes     chan string
+	wdTimer   *time.Timer
+	wdLimit   time.Duration
+	wdForSuit *suite
+)
+
+func wdStart(s *suite) {
+	req, res := make(chan string), make(chan string, 1)
+	wdReq, wdRes, wdForSuit = req, res, s
+	go func() {
+		for p := range req {
+			res <- s.run(p)
+		}
+	}()
+}
 
 func runWatched(s *suite, payload string) string {
 	if hangs >= 3 {
 		return "not-run (earlier cases hang)"
 	}
-	limit := 60 * time.Second
-	if v := os.Getenv("VERIF_CASE_TIMEOUT"); v != "" {
-		if d, err := time.ParseDuration(v); err == nil {
-			limit = d
+	if wdTimer == nil {
+		wdLimit = 60 * time.Second
+		if v := os.Getenv("VERIF_CASE_TIMEOUT"); v != "" {
+			if d, err := time.ParseDuration(v); err == nil {
+				wdLimit = d
+			}
+		}
+		wdTimer = time.NewTimer(wdLimit)
+		if !wdTimer.Stop() {
+			<-wdTimer.C
 		}
 	}
-	ch := make(chan string, 1)
-	go func() { ch <- s.run(payload) }()
+	if wdForSuit != s {
+		wdStart(s)
+	}
+	wdReq <- payload
+	wdTimer.Reset(wdLimit)
 	select {
-	case r := <-ch:
+	case r := <-wdRes:
+		if !wdTimer.Stop() {
+			<-wdTimer.C
+		}
 		return r
-	case <-time.After(limit):
+	case <-wdTimer.C:
 		hangs++
+		wdStart(s) // the stuck worker is abandoned
 		return "hang"
 	}
 }
